@@ -211,6 +211,9 @@ class Hist:
         elif k == "np_reduce":
             o = self.out_id()
             ax = rng.choice([None, rng.choice(dims), rng.randrange(len(dims)), -1 - rng.randrange(len(dims))])
+            if len(dims) >= 2 and rng.random() < 0.3:
+                ks = rng.sample(range(len(dims)), rng.randint(1, len(dims)))
+                ax = [rng.choice([dims[k], k, k - len(dims)]) for k in ks]
             O.append({"op": "np_reduce", "f": rng.choice(["sum", "mean", "max", "min", "prod", "var", "ptp", "median", "any", "all"]),
                       "obj": i, "axis": ax, "out": o})
         elif k == "np_unary":
